@@ -448,7 +448,51 @@ def challenges_unchanged(f):
             found.append({'datum': datum, 'observable': 'caller transcript state after verification identical although the datum changed', 'a': va, 'b': vb, 'n': nn})
         if found:
             break
+    if not found and not bms and d.get('challenge') and kind in ('A', 'L', 'R', 'A1', 'B'):
+        sep = _later_challenge_ignores(n, x, rounds, kind, idx, d['challenge'])
+        if sep:
+            found.append(sep)
     return (len(found) > 0), found[:2]
+
+
+L_ORDER = (1 << 252) + 27742317777372353535851937790883648493
+
+
+def _later_challenge_ignores(n, x, rounds, kind, idx, challenge):
+    """the finding says: challenge c (LATER than the first challenge after datum X) does not depend on X. A single change of X still moves the
+    first challenge after it, so the mask moves; what distinguishes a chained transcript from one where every challenge restarts from an early
+    state is SEPARABILITY: with Y a message absorbed just before c, mask(X,Y) - mask(X,Y') - mask(X',Y) + mask(X',Y') is zero iff the effects of X
+    and Y on the recovered mask (a function of every challenge) are independent. Four RecoverOnly runs on a seeded single-commitment proof."""
+    ex = {'A': x, 'A1': x + 1, 'B': x + 2}.get(kind)
+    if ex is None:
+        ex = x + 5 + 2 * idx + (1 if kind == 'R' else 0)
+    if challenge == 'e':
+        ey = x + 1
+    elif challenge.startswith('e_'):
+        ey = x + 5 + 2 * int(challenge[2:])
+    else:
+        return None
+    if ey == ex or n < 2:
+        return None
+    nn = max(n, 4)
+    if ey >= x + 5 + 2 * ((nn).bit_length() - 1) and challenge != 'e':
+        return None
+    tx = {'op': 'point_add_delta_basis', 'elem': ex, 'basis': {'b': 'h'}}
+    ty = {'op': 'point_add_delta_basis', 'elem': ey, 'basis': {'b': 'h'}}
+    masks = {}
+    for key, t in (('00', None), ('01', [ty]), ('10', [tx]), ('11', [tx, ty])):
+        mem = {'m': 1, 'cap': 1, 'seeded': True}
+        if t:
+            mem['tamper'] = t
+        o = run_replay({'scenario': 'batch', 'n': nn, 'x': x, 'members': [mem], 'actions': ['RecoverOnly']}, 1)
+        if 'crash' in o or not o.get('verify') or o['verify'][0]['result'] != 'ok' or not o['verify'][0]['masks'][0]:
+            return None
+        masks[key] = [int.from_bytes(bytes.fromhex(h), 'little') for h in o['verify'][0]['masks'][0]]
+    dd = [(a - b - c + e) % L_ORDER for a, b, c, e in zip(masks['00'], masks['01'], masks['10'], masks['11'])]
+    if masks['00'] != masks['10'] and masks['00'] != masks['01'] and all(v == 0 for v in dd):
+        return {'observable': 'the effects of %s_%d and of the message absorbed before challenge %s on the RecoverOnly mask are independent (second difference 0): '
+                              'that challenge does not hash the earlier message' % (kind, idx, challenge), 'n': nn, 'x': x}
+    return None
 
 
 def _proof_elems(p):
